@@ -189,9 +189,35 @@ class C12(Prop):
                 break
         if any(v >= 2 for v in entries.values()):
             r.classes.append("lineage_reentered")
-        # the resumed run ends the way the uninterrupted one does
+        # the resumed run ends the way the uninterrupted one does -- judged only for programs whose way of ending does not depend on
+        # which of two terminal causes comes first (a handler's StopEvent racing an unowned failure, ...): work that was in flight at
+        # the snapshot legitimately starts over and takes longer, which may reverse such a race
+        kinds = set()
+        handlers_by_step = {}
+        for h_ in handlers.values():
+            for t_ in (h_["for_steps"] or ["b", "c"]):
+                handlers_by_step.setdefault(t_, h_)
+        for h_ in handlers.values():  # scoped handlers take precedence over the wildcard
+            for t_ in (h_["for_steps"] or []):
+                handlers_by_step[t_] = h_
+        sends_e1 = any(a_[0] == "send" and a_[1] == "E1" for a_ in spec["steps"][0]["acts"]["GStart"])
+        for s_ in spec["steps"]:
+            if s_["name"] not in ("b", "c") or (s_["name"] == "c" and not sends_e1):
+                continue
+            if not any(a_[0] == "fail_gen" for acts in s_["acts"].values() for a_ in acts):
+                continue
+            owner_ = handlers_by_step.get(s_["name"])
+            if owner_ is None:
+                kinds.add("failed")
+            elif owner_["action"] == "stop":
+                kinds.add("result_by_handler")
+            elif owner_["action"] in ("raise", "resend"):
+                kinds.add("failed")
+        race_free = len(kinds) <= 1
+        if race_free:
+            r.classes.append("ending_independent_of_timing")
         a, b = ref.outcome["kind"], rec.outcome["kind"]
-        if a != b:
+        if a != b and race_free:
             r.v("outcome_differs_from_uninterrupted", uninterrupted=a, resumed=b, **attrs)
         r.nontrivial = bool(entries) and any(i["seg"] > 0 for i in rec.inv if "sfe" in i) or bool(queued_lineage)
         r.sample = {"case": case, "uninterrupted": a, "resumed": b, "handler_entries": sum(entries.values())}
